@@ -153,6 +153,10 @@ def oracle_c04(im, ops=None):
                 fs.append(F("C04:yield", f"{r['line'][:60]!r} was yielded as {got}", i))
         elif werr is None and exc_name(e) in ("MissingNodeError", "MissingChildError"):
             fs.append(F("C04:spurious-missing", f"{r['line'][:60]!r} raised {exc_name(e)} although node and child are registered", i))
+        elif isinstance(e, IndexError) and not r["writes"] and r["after"]["nodes"] == want:
+            # the scripted transport holds exactly one line per step: an IndexError from its empty
+            # queue means the gateway consumed the line, did not yield it and asked for another
+            fs.append(F("C04:not-yielded", f"{r['line'][:60]!r} (protocol {ver}) was handled but not yielded: the gateway went on to read the next line", i))
     return fs
 
 
